@@ -186,7 +186,7 @@ def run_shard(shard):
             def _sample(self, key, condition=None):
                 return jnp.zeros(self.shape)
 
-        def check_contrastive(loss_of, n, nc, it, sharp=1.0):
+        def check_contrastive(loss_of, n, nc, it, sharp=1.0, prior_scale=4.0):
             """one evaluation of a contrastive loss object on the tag distribution, checked against the recorded log_prob events;
             sharp > 1 scales the log-density so that logits of different rows differ by thousands of nats (the cross-entropy is
             still finite: the reference uses a stable logsumexp)"""
@@ -215,16 +215,20 @@ def run_shard(shard):
                 v("contrastive.rows", f"log_prob was evaluated for condition rows {sorted(by_row)}, expected every row {ct.tolist()}", it)
                 return None
             lp_np = lambda xi, ci: -0.5 * np.sum((xi * wv - ci * 0.01) ** 2)
-            prior_np = lambda xi: float(np.sum(-0.5 * (xi / 4.0) ** 2 - np.log(4.0) - 0.5 * np.log(2 * np.pi)))
+            prior_np = lambda xi: float(np.sum(-0.5 * (xi / prior_scale) ** 2 - np.log(prior_scale) - 0.5 * np.log(2 * np.pi)))
             xrow = {float(t): np.asarray(x)[i] for i, t in enumerate(xt)}
             losses = []
             for i in range(n):
                 seen = by_row[float(ct[i])]
                 own = float(xt[i])
                 others = [t for t in seen if t != own]
-                if seen.count(own) != 1:
-                    v("contrastive.includes_self", f"row {i}: its own x appears {seen.count(own)} times among the evaluated points {seen} (batch {n}, n_contrastive {nc})", it)
+                # (the row's own point may be evaluated more than once - e.g. once for the positive logit and once inside the normaliser;
+                #  a contrastive set that contains the row itself shows below as fewer than n_contrastive distinct *other* rows)
+                if seen.count(own) < 1:
+                    v("contrastive.includes_self", f"row {i}: its own x is never evaluated; evaluated points {seen} (batch {n}, n_contrastive {nc})", it)
                     return None
+                if seen.count(own) > 1:
+                    rec.count("contrastive_rows_with_own_point_evaluated_repeatedly")
                 if len(others) != nc or len(set(others)) != nc or not set(others) <= set(xt.tolist()):
                     v("contrastive.set", f"row {i}: contrastive set {sorted(others)} is not {nc} distinct other rows (batch {n})", it, {"seen": seen})
                     return None
@@ -263,6 +267,15 @@ def run_shard(shard):
             it = {"loss": "contrastive-sharp", "batch": n, "n_contrastive": nc, "rep": rep, "origin": "generated"}
             if check_contrastive(lambda nc_: ContrastiveLoss(prior, nc_), n, nc, it, sharp=30.0) is not None:
                 rec.nontrivial.add(chash("consharp", n, nc, rep, shard["shard"]))
+        # priors whose density at the batch points is far outside exp's range in either direction (a very concentrated prior: log
+        # density down to -1e5 at the later rows; a very diffuse one: the ratio estimator's logits are then dominated by the prior
+        # term): the loss is a difference of log-densities and stays an ordinary number
+        for n, nc, ps in [(5, 2, 0.02), (8, 3, 0.005), (6, 5, 1e300)]:
+            it = {"loss": "contrastive-extreme-prior", "batch": n, "n_contrastive": nc, "prior_scale": ps, "rep": rep, "origin": "generated"}
+            pri = D.Normal(jnp.zeros(2), jnp.full((2,), ps))
+            if check_contrastive(lambda nc_, _p=pri: ContrastiveLoss(_p, nc_), n, nc, it, prior_scale=ps) is not None:
+                rec.count("contrastive_extreme_prior_evaluations")
+                rec.nontrivial.add(chash("conprior", n, nc, ps, rep, shard["shard"]))
         # histories: ONE loss object evaluated on a sequence of batches of different sizes (what fit_to_data does: training
         # batches, then a validation batch of another size) - every evaluation must satisfy the same definition
         for nc in ([1, 3] if stride != 1 else [1, 2, 3, 6]):
